@@ -369,6 +369,11 @@ def _shadow(v):
         return 1.0
     if isinstance(v, SB):
         return True
+    if isinstance(v, (list, tuple)):
+        try:
+            return _shadow(to_object_array(v))
+        except (ValueError, TypeError):
+            return v
     return v
 
 
